@@ -42,8 +42,11 @@ for rnd in sorted(rounds):
     for n in sorted(names):
         m = seeds[n]
         summ = re.sub(r'\s+', ' ', str(m.get('summary', '')))[:230].replace('|', '/')
-        first = 'caught' if not str(m.get('detected_by', '')).startswith('MISSED') else 'missed'
+        db = re.sub(r'\s+', ' ', str(m.get('detected_by', ''))).replace('|', '/')
+        first = 'caught' if not db.startswith('MISSED') else 'missed' + (': ' + db[6:].lstrip(' :-')[:260] if len(db) > 8 else '')
         now = res.get(n, {}).get('status', '?')
+        if m.get('superseded'):
+            now += ' (superseded by a later fix, see meta.json)'
         out.append('| %s | %s | %s | %s |' % (n, summ, first, now))
     out.append('')
 out.append('What the misses taught (each is now part of the check, see §3b): state carried between calls (caches keyed on too '
